@@ -8,6 +8,9 @@ THEOREMS = ["OQuPyVerif.Props.C04.trace_preserved", "OQuPyVerif.Props.C04.hermit
             "OQuPyVerif.Props.C04.influence_unit_of_tables", "OQuPyVerif.Props.C04.influence_unit",
             "OQuPyVerif.Props.C04.influence_conj",
             "OQuPyVerif.Props.C04.pt_trace_preserved", "OQuPyVerif.Props.C04.pt_hermitian_preserved",
+            # positivity in the Kraus sector (Props/C04Pos.lean)
+            "OQuPyVerif.Props.C04.kraus_step_physical", "OQuPyVerif.Props.C04.kraus_steps_physical",
+            "OQuPyVerif.Props.C04.kraus_prefix_physical", "OQuPyVerif.Props.C04.gram_is_physical",
             # PT-TEBD norm and reduced-state traces (C10) and the Gibbs state (C11)
             "OQuPyVerif.Props.C10.norm_step", "OQuPyVerif.Props.C10.norm_one",
             "OQuPyVerif.Props.C10.site_dissipator_trace_annihilating",
@@ -15,7 +18,7 @@ THEOREMS = ["OQuPyVerif.Props.C04.trace_preserved", "OQuPyVerif.Props.C04.hermit
             "OQuPyVerif.Props.C10.dissipators_hermiticity_preserving",
             "OQuPyVerif.Props.C11.gibbs_trace_one", "OQuPyVerif.Props.C11.gibbs_hermitian",
             "OQuPyVerif.Props.C11.gibbs_normalised_hermitian"]
-EXTRA_MODULES = ["OQuPyVerif.Props.C10", "OQuPyVerif.Props.C11"]
+EXTRA_MODULES = ["OQuPyVerif.Props.C10", "OQuPyVerif.Props.C11", "OQuPyVerif.Props.C04Pos"]
 TOL = 1e-8
 HYP_TOL = 1e-20      # residuals are squared moduli
 
@@ -173,7 +176,129 @@ def physical_paths(res):
                 break
 
 
+def _rand_herm(rng, d, scale=1.0):
+    a = np.array([[complex(rng.uniform(-1, 1), rng.uniform(-1, 1)) for _ in range(d)] for _ in range(d)])
+    return scale * (a + a.conj().T) / 2
+
+
+def kraus_systems(rng, tier):
+    """systems whose steps are products of Kraus-form superoperators (no bath); FORCED first, then random"""
+    import oqupy
+    from oqupy import operators as op
+    out = []
+    out.append(("closed qubit", 2, oqupy.System(0.7 * op.sigma("x") + 0.3 * op.sigma("z")), 0.1, 0.0))
+    out.append(("damped qubit", 2, oqupy.System(0.4 * op.sigma("x"), gammas=[0.3, 0.15],
+                                                lindblad_operators=[op.sigma("-"), op.sigma("z")]), 0.1, 0.5))
+    out.append(("driven qubit, time-dependent rates", 2, oqupy.TimeDependentSystem(
+        lambda t: 0.5 * np.cos(t) * op.sigma("x") + 0.2 * op.sigma("z"),
+        gammas=[lambda t: 0.2 + 0.1 * np.sin(t) ** 2], lindblad_operators=[lambda t: op.sigma("-")]), 0.2, -0.3))
+    for i in range(2 if tier == "quick" else 10):
+        d = rng.choice([2, 3, 3])
+        nl = rng.choice([0, 1, 2])
+        ls = [np.array([[complex(rng.uniform(-1, 1), rng.uniform(-1, 1)) for _ in range(d)]
+                        for _ in range(d)]) for _ in range(nl)]
+        out.append(("random d=%d, %d Lindblad operators" % (d, nl), d,
+                    oqupy.System(_rand_herm(rng, d), gammas=[rng.uniform(0.0, 0.6) for _ in range(nl)],
+                                 lindblad_operators=ls), rng.choice([0.05, 0.1, 0.3]), rng.choice([0.0, 1.7])))
+    return out
+
+
+def choi_kraus(P, d):
+    """Kraus operators read off the Choi matrix of a vectorised (row-major) superoperator"""
+    C = np.asarray(P).reshape(d, d, d, d).transpose(0, 2, 1, 3).reshape(d * d, d * d)
+    w, v = np.linalg.eigh((C + C.conj().T) / 2)
+    return [np.sqrt(x) * v[:, k].reshape(d, d) for k, x in enumerate(w) if x > 0.0]
+
+
+def kraus_tie(res, tier, rng):
+    """positivity sector (Props/C04Pos.lean): the propagators the code really uses meet `IsKrausStep`
+    (both residuals evaluated by Lean on exact rationals), the model `runVec` on these propagators
+    reproduces `compute_dynamics` without a process tensor, and every reported state is Gram"""
+    import oqupy
+    from oqupy.config import SUBDIV_LIMIT, INTEGRATE_EPSREL
+    nsteps = 3
+    lines, meta = [], []
+    for (name, d, system, dt, start) in kraus_systems(rng, tier):
+        props = system.get_propagators(dt, start, SUBDIV_LIMIT, INTEGRATE_EPSREL)
+        b = np.array([[complex(rng.uniform(-1, 1), rng.uniform(-1, 1)) for _ in range(d)] for _ in range(d)])
+        rho0 = b @ b.conj().T
+        rho0 = rho0 / np.trace(rho0).real
+        dyn = oqupy.compute_dynamics(system, initial_state=rho0, dt=dt, num_steps=nsteps,
+                                     start_time=start, progress_type="silent")
+        plist = []
+        for k in range(nsteps):
+            first, second = props(k)
+            plist += [np.array(first), np.array(second)]
+        for P in plist:
+            ks = choi_kraus(P, d)
+            lines.append("kraus %d %d | %s | %s" % (d, len(ks), " ".join(fw.crat(z) for z in P.reshape(-1)),
+                                                     " ".join(fw.crat(z) for K in ks for z in K.reshape(-1))))
+        lines.append("run %d %d | %s | %s" % (d, len(plist), " ".join(fw.crat(z) for z in rho0.reshape(-1)),
+                                              " | ".join(" ".join(fw.crat(z) for z in P.reshape(-1)) for P in plist)))
+        real = [np.array(s) for s in dyn.states]
+        for st in real:
+            h = (st + st.conj().T) / 2
+            w, v = np.linalg.eigh(h)
+            B = v * np.sqrt(np.clip(w, 0.0, None))
+            lines.append("gram %d %d | %s | %s" % (d, d, " ".join(fw.crat(z) for z in st.reshape(-1)),
+                                                   " ".join(fw.crat(z) for z in B.reshape(-1))))
+        meta.append((name, d, len(plist), real))
+        res.count("kraus-sector:%s" % name.split(",")[0].split(" d=")[0])
+    out = fw.run_driver("C04Pos", lines)
+    pos = 0
+    for (name, d, npl, real) in meta:
+        desc = {"sector": "kraus", "system": name, "d": d}
+        worst = {"kraus": 0.0, "unit": 0.0, "gram": 0.0}
+        for _ in range(npl):
+            toks = out[pos].split(); pos += 1
+            if len(toks) != 4:
+                res.disagree("driver C04Pos rejected a kraus line (%s)" % out[pos - 1][:80], desc)
+                continue
+            worst["kraus"] = max(worst["kraus"], float(fw.parse_rat(toks[1])))
+            worst["unit"] = max(worst["unit"], float(fw.parse_rat(toks[3])))
+        states = [np.array([complex(*[float(fw.parse_rat(x)) for x in tok.split(",")]) for tok in part.split()])
+                  for part in out[pos].split(" ; ")]
+        pos += 1
+        model = [states[2 * k + 1] for k in range(len(real) - 1)]
+        err = max(np.abs(m - r.reshape(-1)).max() for m, r in zip(model, real[1:]))
+        for _ in real:
+            toks = out[pos].split(); pos += 1
+            worst["gram"] = max(worst["gram"], float(fw.parse_rat(toks[1])) if len(toks) == 2 else 1.0)
+        res.case("kraus:" + name, True, {"case": desc, "compute_dynamics_vs_runVec": err,
+                                         "hypothesis_residuals_sq": worst})
+        if err > TOL:
+            res.disagree("compute_dynamics without a process tensor differs from the model `runVec` on "
+                         "the code's own propagators by %g" % err, desc)
+        if worst["kraus"] > HYP_TOL or worst["unit"] > HYP_TOL:
+            res.disagree("hypothesis `IsKrausStep` of kraus_steps_physical is not met by a propagator of "
+                         "get_propagators (residuals² %r)" % worst, desc)
+        if worst["gram"] > 1e-16:
+            res.disagree("a state reported by compute_dynamics (no bath) is not of Gram form "
+                         "(residual² %g) although every step is a Kraus step" % worst["gram"], desc)
+
+
+def kraus_search(res):
+    """oracle from the property text in the no-bath sector: every reported state is PSD, trace one"""
+    import oqupy
+    rng = random.Random(res.seed + 404)
+    for (name, d, system, dt, start) in kraus_systems(rng, "quick"):
+        for pure in (True, False):
+            b = np.array([[complex(rng.uniform(-1, 1), rng.uniform(-1, 1)) for _ in range(1 if pure else d)]
+                          for _ in range(d)])
+            rho0 = b @ b.conj().T
+            rho0 = rho0 / np.trace(rho0).real
+            dyn = oqupy.compute_dynamics(system, initial_state=rho0, dt=dt, num_steps=6,
+                                         start_time=start, progress_type="silent")
+            for k, st in enumerate(dyn.states):
+                for c in physical(np.array(st), True, tol=1e-9):
+                    res.fail("no-bath compute_dynamics:%s" % c.split()[0],
+                             {"api": "compute_dynamics(no process tensor)", "system": name, "dt": dt,
+                              "start": start, "pure": pure, "step": k, "complaint": c,
+                              "rho0": [[repr(complex(z)) for z in row] for row in rho0]})
+
+
 def search(res):
+    kraus_search(res)
     import oqupy
     from oqupy import operators as op
     from . import cases, oq
@@ -237,14 +362,16 @@ def run(tier, seed, replay):
                        "correspondence) enter only through the 1e-8 comparison",
                        "expm / quad accuracy (scipy) is not verified: their outputs are checked to "
                        "satisfy the hypotheses on every run"]
-    res.not_shown = ["positive semidefiniteness (needs complete positivity of the Trotterised "
-                     "Gaussian-bath map, DESIGN.md §6)",
+    res.not_shown = ["positive semidefiniteness WITH a non-trivial bath (needs complete positivity of the "
+                     "Trotterised Gaussian-bath map, DESIGN.md §6); without a bath it is proved "
+                     "(kraus_steps_physical) and tied to the code's own propagators",
                      "Gibbs-state positivity",
                      "mean-field TEMPO: covered through the same step kernel (C09); no separate theorem here"]
     fw.standard_pipeline(res, ["TebdLayers", "ChainLindblad", "ControlCompose", "GibbsLoop"],
                          THEOREMS, extra_modules=EXTRA_MODULES)
     try:
         correspondence(res, tier, rng)
+        kraus_tie(res, tier, random.Random(seed + 4))
         physical_paths(res)
         # the PT-TEBD and Gibbs parts of the property: their models, the hypotheses of the norm /
         # Hermiticity theorems on the real tensors, and the real results (harnesses of C10 / C11)
